@@ -480,4 +480,10 @@ Section Model.
     end.
   Definition op_loc (o : op) : nat :=
     match o with OpSetParams l _ | OpSetAttr l _ _ | OpMove l _ _ | OpCopy l | OpCopyWith l _ => l end.
+  (* ------------------------------------------------------------ extension: skyllh/core/utils/flux_model.py
+     create_scipy_stats_rv_continuous_from_TimeFluxProfile: norm = 1 / total integral (0 when the total is 0),
+     _pdf(t) = profile(t) * norm *)
+  Definition rv_norm_of (p : tprof) : T :=
+    let tot := t_total p in if rv_has_norm N tot then rv_norm N tot else nzero N.
+  Definition rv_pdf_of (p : tprof) (t : T) : T := rv_pdf N (rv_norm_of p) (t_call p None t).
 End Model.
